@@ -263,6 +263,20 @@ def gen_cases(thorough):
             if rng.chance(1, 2): parts[rng.below(len(parts))] = b
             cs.append("joins %s %d %s" % (hx(b), len(parts), " ".join(hx(x) for x in parts)))
         else: cs.append("lev %s %s" % (hx(a0.swapcase()), hx(b0)))
+    # --- default-argument overloads on an alphabet with NUL / control / high bytes at both ends: the no-argument trim family
+    #     (documented default set " \r\n\t"), erase_all() / pad() with their default character
+    DEF_AL = [b"x", b" ", b"\t", b"\n", b"\r", b"\x00", b"\xff", b"\x0b"]
+    for s0 in all_strings(DEF_AL, 5 if thorough else 4):
+        cs.append("trim %s 200d0a09" % hx(s0))
+    for s0 in all_strings(DEF_AL, 3):
+        cs.append("era %s 20" % hx(s0)); cs.append("pad %s %d 20" % (hx(s0), len(s0) + 1 - (len(s0) % 3)))
+    EDGE = [b"\x00", b"\x01", b"\x7f", b"\x80", b"\xff", b"\x0b", b"\x0c", b" ", b"\t", b"\n", b"\r"]
+    for _ in range(120 * scale):
+        core = rbytes(rng.below(4), [b"x", b"\x00", b" ", b"\xff"])
+        s0 = rbytes(rng.below(4), EDGE) + core + rbytes(rng.below(4), EDGE)
+        cs.append("trim %s 200d0a09" % hx(s0))
+        if rng.chance(1, 4): cs.append("era %s 20" % hx(s0)); cs.append("pad %s %d 20" % (hx(s0), rng.below(12)))
+        if rng.chance(1, 4): cs.append("jq 20 22 5c 2 %s %s" % (hx(s0), hx(core)))
     # --- huge sizes: one sparse zero mapping, written head / tail bytes; only helpers that touch the ends (see harness)
     HS = [2 ** 31 - 1, 2 ** 31, 2 ** 31 + 1, 2 ** 32 - 1, 2 ** 32, 2 ** 32 + 1]
     HV = [(b"Hello", b".TXT", b".txt", b" ", 5), (b"  ab", b"cd \t", b"", b" \t\r\n", 3), (b"aB", b"xyz", b"yz", b"z", 0),
